@@ -3936,6 +3936,26 @@ def replay(pid, path):
         bad = bool(res["error"])
         print(("VIOLATION property=%s replay=%s" % (pid, path)) if bad else "model-level violation no longer reproduces")
         return 1 if bad else 0
+    if str(r.get("kind", "")).startswith("the harness process was killed"):
+        # re-run the executor on the recorded scenario file: the violation is the process dying again
+        inp = r.get("scenarios")
+        if not inp or not os.path.isfile(inp):
+            raise ToolTrouble("the scenario file of this crash was not kept")
+        try:
+            vlib.run_harness([r["executor"], inp, os.path.join(wd, "replay-crash-trace.ndjson")] + (["90"] if r["executor"] == "pexec" else []))
+        except vlib.HarnessCrash:
+            print("VIOLATION property=%s replay=%s" % (pid, path))
+            return 1
+        log("the executor now survives the recorded scenarios")
+        return 0
+    if str(r.get("kind", "")).startswith("ExtraWalk!Accepts disagrees"):
+        progs = os.path.join(wd, "replay-scenario.ndjson")
+        vlib.write_ndjson(progs, [r["program"]])
+        vlib.run_harness(["wexec", progs, trace])
+        got = next((e.get("r") for e in vlib.read_ndjson(trace) if e.get("ev") == "EndExtra"), None)
+        bad = (got == "ok") != bool(r["model_accepts"])
+        print(("VIOLATION property=%s replay=%s" % (pid, path)) if bad else "end_extra_data() now answers as the model does")
+        return 1 if bad else 0
     if label in REPLAY and isinstance(sc, dict) and (sc.get("ops") or sc.get("hex") or sc.get("segments") or sc.get("steps") is not None):
         ex, mod, _ = REPLAY[label]
         if sc.get("hex") == "(omitted)":
